@@ -13,7 +13,9 @@ SIZES = {"quick": 1500, "thorough": 40000}
 BATCH = 1500
 RULE = ("one flow rule (WarmUp+Reject 72%, MemoryAdaptive+Reject 22%, invalid 6%) on one resource, in about a third of the cases reloaded "
         "1-4 times between demand phases with exactly one field changed (threshold, period, cold factor, statistic interval; each water mark, each "
-        "memory threshold), unchanged, made invalid and restored, or switched to the other strategy and back; thresholds from "
+        "memory threshold), unchanged, made invalid and restored, or switched to the other strategy and back; 12% of the cases use "
+        "ControlBehavior Throttling (MemoryAdaptive 60% / WarmUp 40%, queueing limits 0..2000 ms, probes with batches around both thresholds, "
+        "reloads incl. Reject<->Throttling); 0.4% are soak cases (goroutines overwriting the memory gauge while requests run); thresholds from "
         "{0, small integers, fractions, cold-factor boundaries +-, medium, large}, periods 1..60 s, cold factors {0(default),2..10,1(invalid)}, "
         "StatIntervalInMs from the reusable views {0,500,1000,2000,5000,10000}; demand = phases of saturating per-second bursts, "
         "sub-second streams, steady single-token demand, idle gaps (short / longer than the refill time), optional traffic before the "
@@ -235,6 +237,84 @@ def gen_case(rng, cid, t0):
     return Case(cid, ops, tags=tuple(tags)), now
 
 
+def throttle_case(rng, cid, t0):
+    """MemoryAdaptive / WarmUp rules with ControlBehavior Throttling (`q=<maxQueueingMs>`), exercised with `probe <batch>`:
+    the calculated threshold feeds the throttling checker (blocked when <= 0 or < batch, paced with ceil(batch/threshold*interval))."""
+    now = t0 + rng.choice([0, 1, 250, 500, 999])
+    ops = [f"clock {now}"]
+    tags = ["throttle"]
+    maxq = rng.choice([0, 0, 100, 300, 500, 1000, 2000])
+    iv = rng.choice([0, 0, 0, 1000, 500, 2000])
+    if rng.random() < 0.6:
+        lowT = rng.choice([2, 5, 10, 50, 100, rng.randint(2, 300)])
+        highT = rng.choice([1, max(1, lowT // 10), max(1, lowT // 2), lowT - 1])
+        lowM = rng.choice([1, 100, 1000, 1 << 20, rng.randint(1, 10 ** 6)])
+        highM = lowM + rng.choice([1, 2, 10, 1000, 1 << 20, rng.randint(1, 10 ** 6)])
+        cur = {"lowT": lowT, "highT": highT, "lowM": lowM, "highM": highM, "iv": iv, "q": maxq}
+        tags.append("mat")
+
+        def emit():
+            ops.append(f"load ma {cur['lowT']} {cur['highT']} {cur['lowM']} {cur['highM']} {cur['iv']}" + ("" if cur["q"] is None else f" q={cur['q']}"))
+        emit()
+        for _ in range(rng.randint(3, 12)):
+            if rng.random() < 0.2:
+                k = rng.choice(["highM", "lowM", "lowT", "highT", "q", "behav", "same"])
+                if k == "highM":
+                    cur["highM"] = cur["highM"] * 2
+                elif k == "lowM":
+                    cur["lowM"] = max(1, cur["lowM"] // 2)
+                elif k == "lowT":
+                    cur["lowT"] += rng.choice([1, 7])
+                elif k == "highT" and cur["highT"] > 1:
+                    cur["highT"] -= 1
+                elif k == "q":
+                    cur["q"] = rng.choice([x for x in [0, 100, 500, 1000] if x != cur["q"]])
+                elif k == "behav":
+                    cur["q"] = None if cur["q"] is not None else rng.choice([0, 500])
+                tags.append("reload-" + k)
+                emit()
+            lowT, highT, lowM, highM = cur["lowT"], cur["highT"], cur["lowM"], cur["highM"]
+            m = rng.choice([-1, 0, lowM - 1, lowM, lowM + 1, (lowM + highM) // 2, highM - 1, highM, highM + 1, 2 * highM, rng.randint(lowM, highM)])
+            ops.append(f"mem {m}")
+            # every earlier probe may have slept up to the queueing limit: stay ahead of the real clock
+            now += rng.choice([1, 500, 1000, 1000, 3000, 12000])
+            ops.append(f"clock {now}")
+            if cur["q"] is None:
+                ops.append(f"req {min(3000, lowT + 2)} 1")
+                continue
+            for _ in range(rng.randint(1, 6)):
+                b = rng.choice([1, 1, 1, 2, highT, highT + 1, max(1, lowT // 2), lowT, lowT + 1])
+                ops.append(f"probe {b}")
+                now += cur["q"]
+    else:
+        cf = rng.choice([0, 3, 2, 4, 5])
+        ecf = 3 if cf <= 1 else cf
+        T = float(rng.choice([ecf, ecf + 0.5, 2 * ecf, 10, 20, 33, 100, rng.randint(ecf, 200)]))    # T >= cf: outside warmup-nan / starvation
+        p = rng.choice([1, 2, 3, 5, 10, 30])
+        ops.append(f"load wu {fb(T)} {p} {cf} {iv} q={maxq}")
+        tags += ["wut", f"T={T}", f"p={p}", f"cf={cf}"]
+        for _ in range(rng.randint(4, 25)):
+            now += rng.choice([1, 100, 500, 1000, 1000, 1000, 2000, 15000])
+            ops.append(f"clock {now}")
+            for _ in range(rng.randint(1, 5)):
+                b = rng.choice([1, 1, 1, 2, max(1, int(T / ecf)), int(T / ecf) + 1, max(1, int(T) // 2), int(T), int(T) + 1])
+                ops.append(f"probe {b}")
+                now += maxq
+    return Case(cid, ops, tags=tuple(tags)), now
+
+
+def soak_case(rng, cid, t0):
+    """concurrent memory-gauge updates (goroutines) against sequential requests on a MemoryAdaptive+Reject rule; verdict only"""
+    lowT = rng.choice([10, 50, 200])
+    highT = rng.choice([1, max(1, lowT // 10), lowT - 1])
+    lowM = rng.choice([1000000, 5000000, 1 << 30])
+    highM = lowM + rng.choice([2, 100, 4096])
+    ops = [f"clock {t0}", f"soak {lowT} {highT} {lowM} {highM} {rng.choice([10000, 20000])} {rng.choice([1, 2, 3])}"]
+    if rng.random() < 0.5:
+        ops += [f"load ma {lowT} {highT} {lowM} {highM} 0", f"mem {lowM + 1}", f"req {lowT + 2} 1"]
+    return Case(cid, ops, tags=("soak",)), t0 + 1000
+
+
 def known_slice(rng, cid, t0):
     """a fixed slice inside each recorded finding's region (so that a silent repair is noticed)"""
     k = rng.choice(["nan", "nan0", "nan-cf2", "starve", "starve-frac", "stuck0", "stuck", "stuck", "late"])
@@ -293,7 +373,12 @@ def gen(ctx, n):
     for i in range(n):
         _seq[0] += 1
         cid = f"g{ctx.seed}-{_seq[0]}"
-        if ctx.rng.random() < 0.08:
+        r0 = ctx.rng.random()
+        if r0 < 0.004:
+            c, end = soak_case(ctx.rng, cid, t0)
+        elif r0 < 0.124:
+            c, end = throttle_case(ctx.rng, cid, t0)
+        elif r0 < 0.20:
             c, end = known_slice(ctx.rng, cid, t0)
         else:
             c, end = gen_case(ctx.rng, cid, t0)
